@@ -51,8 +51,10 @@ func pushCanonical(d []byte) []byte {
 		return []byte{0x00}
 	case len(d) <= 75:
 		return append([]byte{byte(len(d))}, d...)
-	default:
+	case len(d) <= 255:
 		return append([]byte{opPushData1, byte(len(d))}, d...)
+	default:
+		return append([]byte{0x4d, byte(len(d)), byte(len(d) >> 8)}, d...)
 	}
 }
 
